@@ -288,8 +288,11 @@ prop("C05",
 prop("C07",
      title="Parallel full sync restores every key exactly once into the right database",
      timing=True,
-     quick=[{"re": "^TestC07$", "checks": 1200, "shards": 4}],
-     thorough=[{"re": "^TestC07$", "checks": 120000, "shards": 12, "timeout": 1700}],
+     regress_re="^TestC07(Chunked)?Regress$",
+     quick=[{"re": "^TestC07$", "checks": 1200, "shards": 4},
+            {"re": "^TestC07Chunked$", "checks": 5}],
+     thorough=[{"re": "^TestC07$", "checks": 120000, "shards": 12, "timeout": 1700},
+               {"re": "^TestC07Chunked$", "checks": 300, "shards": 6, "timeout": 1700}],
      rule="generated RDB (0-6 dbs in any order from 0..15, 0-6 keys each, every classic encoding, lua scripts, aux/resizedb/module-aux) x parallel 1..8 x "
           "target.db in {-1,0,3} x db/key/slot(sync only)/lua filters x key_exists x pre-existing target keys x RESTORE or element route x an injected "
           "error reply for one key x a schedule script: the model target (loopback TCP) holds every connection's next command at a gate; a scheduler "
@@ -297,10 +300,12 @@ prop("C07",
           "connections are waiting. Real DbSyncer.syncRDBFile / dbRestorer.restoreRDBFile. Oracle at return time: every record that passes the reference "
           "filter is in its source db (or target.db) with the source value, restored exactly once, nothing else written, existing keys untouched under "
           "ignore, SCRIPT LOAD count == scripts passing filter.lua; busy key under none or an injected error => sync returns an error / restore mode "
-          "aborts. Non-trivial: parallel>=2, writes in >=3 dbs over >=2 connections. Distinct = hash of (case, schedule, release order).",
+          "aborts. Chunked: one hash of 16-40 MiB (boundaries placed around the chunk limit) restored by 2-4 workers under a generated schedule, with/without "
+          "a pre-existing key under rewrite: all fields present, none stale (known finding: the first chunk's DEL can overtake... be overtaken by a later chunk). "
+          "Non-trivial: parallel>=2, writes in >=3 dbs over >=2 connections; chunks written over >=2 connections. Distinct = hash of (case, schedule, release order).",
      technique="property-based testing (rapid) with a generated schedule script driving a gated model target (controlled interleaving of worker connections); model-based oracle over keyspace and command log",
      level_text="Generated inputs x configurations x command-level interleavings chosen by the generator; which worker takes which entry is up to the Go runtime (observed in the log, not controlled).",
-     level_note="Trusted: harness/mredis, the gate scheduler, the reference filter predicates. Chunked hashes under parallel>1 are not generated here (cost); their route is covered single-connection in C02.",
+     level_note="Trusted: harness/mredis, the gate scheduler, the reference filter predicates. Which worker takes which chunk of a chunked hash is up to the runtime.",
      assumptions=["keys are unique per database (and across databases when target.db is fixed): an RDB cannot hold a key twice",
                   "a key never carries both IDLE and FREQ hints (Redis saves one or the other)"])
 
